@@ -610,7 +610,7 @@ func c19GenScript(r *rand.Rand, name string, nblocks int) *c19Script {
 					continue
 				}
 				a.Kind = "vote"
-				a.Req = nreq - 1 - r.Intn(minInt(nreq, 3))
+				a.Req = nreq - 1 - r.Intn(c19MinInt(nreq, 3))
 				a.Choice = int8(1 + r.Intn(2))
 				if r.Intn(3) != 0 {
 					a.Choice = 1
@@ -644,7 +644,7 @@ func c19GenScript(r *rand.Rand, name string, nblocks int) *c19Script {
 	return sc
 }
 
-func minInt(a, b int) int {
+func c19MinInt(a, b int) int {
 	if a < b {
 		return a
 	}
